@@ -76,7 +76,9 @@ def gen(rng, n):
                 second = rng.choice([(lim - datetime.timedelta(days=5)).strftime(FMT), (lim + datetime.timedelta(days=5)).strftime(FMT)])
                 info = '[Trash Info]\nDeletionDate=%s\nPath=/home/u/%s\nDeletionDate=%s\n' % (first, name, second)
                 dates = [first, second]
-            nodes += scen.entry(td, name, '/home/u/' + name, None, rng.choice(['f', 'd', 'l']), info_override=info)
+            pk = rng.choice(['f', 'd', 'l'])
+            nodes += scen.entry(td, name, '/home/u/' + name, None, pk, info_override=info,
+                                data=(rng.choice([None, 'no/such', '../gone', '/canary/dir']) if pk == 'l' else None))
             ents.append({'td': td, 'name': name, 'dates': dates})
         orphans = []
         if rng.random() < 0.4:
